@@ -1189,6 +1189,18 @@ class Host(utils.EventEmitter):
         return self.on_command_processed(event)
 
     def on_hci_command_status_event(self, event: hci.HCI_Command_Status_Event):
+        if event.command_opcode == 0:
+            # Like a Command Complete event for opcode 0, this is used just for the
+            # Num_HCI_Command_Packets field, not related to an actual command
+            logger.debug('no-command event for flow control')
+
+            # Release the command semaphore if needed
+            if event.num_hci_command_packets and self.command_semaphore.locked():
+                logger.debug('command status event releasing semaphore')
+                self.command_semaphore.release()
+
+            return
+
         return self.on_command_processed(event)
 
     def on_hci_number_of_completed_packets_event(
